@@ -29,6 +29,12 @@ CHECKS['C07'] = dict(text='Every byte string up to the stated length goes symbol
 CHECKS['C08'] = dict(text='For every value over {newline, space, tab, ".", "a"} up to the stated length that is a sequence of text lines, the real WriteTo output is shown to contain no blank line, to read back (real reader) to the same logical lines, and to be stable under a second cycle without growth; every C07 document is pushed through read-write-read; k paragraphs through one Encoder decode to k structs.',
              note='Trusted as for C07. fmt.Sprintf("%s: %s") and strings.Split/Join/TrimSuffix are contract models.',
              ref='DESIGN.md 2/C08')
+CHECKS['C13'] = dict(text='One inductive step of Ar.Next from an arbitrary 64-bit offset over a well-formed 60-byte header with symbolic name characters and symbolic decimal digits is executed symbolically (real parseArEntry, strconv.Atoi, io.SectionReader from SSA): z3 shows the entry carries exactly the header fields, its reader covers [offset+60, offset+60+size) and the iterator lands on offset+60+size+size%2, which by the format is the next header - so archives of any length follow by induction. End-to-end runs over archives of 0-3 members with symbolic names/data check order, bytes, EOF and re-reading of earlier members; the 8-byte global magic is checked over arbitrary bytes.',
+             note='Trusted: go/ssa, interpreter, z3; the io.ReaderAt of the inductive step is a harness stub that serves the header and records requested offsets.',
+             ref='DESIGN.md 2/C13')
+CHECKS['C15'] = dict(text='One step of Ar.Next from an arbitrary offset with arbitrary bytes in each header column (all 256 values at small widths, a restricted alphabet at full width) and short reads is executed symbolically: no panic outcome, a returned member implies both magic bytes, a non-negative size, a reader of exactly that size and progress of at least 60 bytes (hence at most len/60 steps); whole-archive iteration over short arbitrary inputs checks the step bound and repeatability.',
+             note='Trusted: go/ssa, interpreter, z3. The decompressors and archive/tar on hostile streams are outside the claim (as in the statement).',
+             ref='DESIGN.md 2/C15')
 NA = {}
 props = [json.loads(l) for l in open(os.path.join(V, 'properties.jsonl'))]
 checks = []
